@@ -30,7 +30,9 @@ def fault_list(call, tier):
     kinds = []
     errs = iorun.ERRNOS.get(call['call'])
     if errs:
-        for e in (errs if tier == 'thorough' else errs[:1]):
+        # quick tier: the first errno of the list; for unlinkat also ENOENT (the name vanished: somebody else renamed or removed
+        # the message - an errno that code is tempted to treat as success)
+        for e in (errs if tier == 'thorough' else (errs[:2] if call['call'] == 'unlinkat' else errs[:1])):
             kinds.append('errno=' + e)
     if call['call'] in iorun.SHORTABLE:
         kinds.append('short=1')
